@@ -126,6 +126,19 @@ def judge(ctx, o, version, embedding="plain", tags=()):
         return None
     text = json.dumps(o)
     ctx.ev()
+    if ctx.counters.get("evaluations", 0) % 3 == 0:
+        # histories: the same content was first used leniently, under the other version, and with a custom property added;
+        # none of that may influence the strict parse that follows
+        import stix2
+        for fn in (lambda: stix2.parse(text, allow_custom=True), lambda: stix2.parse(json.loads(text), allow_custom=True, version="2.0" if version == "2.1" else "2.1"),
+                   lambda: stix2.parse(dict(json.loads(text), x_history_prop=1), allow_custom=True)):
+            try:
+                with warnings.catch_warnings():
+                    warnings.simplefilter("ignore")
+                    fn()
+            except Exception:
+                pass
+        ctx.count("lenient_histories")
     try:
         parsed = lib_parse(text)
     except Exception as e:
